@@ -184,6 +184,62 @@ fn giant_contiguous(rep: &mut Report) {
     }
 }
 
+/// A window that passes the cell limit but whose layout does not fit the scratch slab (so the call falls back to the greedy
+/// algorithm), then - on the same matcher - longer windows with a two character needle that do fit and on which the optimal
+/// and the greedy algorithm disagree: the second call must give what a fresh matcher gives.
+fn rejected_then_accepted(opts: &Opts, rep: &mut Report) {
+    let mut rng = Rng::new(mix(&[opts.seed, opts.shard, 0x5ab]));
+    let mut veteran = m_match::initial_matcher(opts.seed, opts.shard, 12);
+    for n1 in [5usize, 6, 7, 8, 9, 10, 12, 16, 24] {
+        for wide in [false, true] {
+            let cfg = RCfg::from_index(rng.below(RCfg::COUNT));
+            veteran.config = cfg.real();
+            // (long enough not to fit with n1 columns, short enough that a two column window of the same length does)
+            let h1 = (102_400 / n1).min(if wide { 8300 } else { 10_400 }) - rng.below(40);
+            let mut hay: Vec<char> = vec!['a'];
+            hay.extend(std::iter::repeat(if wide { '\u{4e2d}' } else { 'x' }).take(h1 - n1));
+            hay.extend(std::iter::repeat('b').take(n1 - 1));
+            let mut needle = vec!['a'];
+            needle.extend(std::iter::repeat('b').take(n1 - 1));
+            let (ht, nt) = (Text::new(hay), Text::new(needle));
+            let _ = caught(|| call(&mut veteran, Algo::Fuzzy, ht.view(!wide), nt.view(true), None));
+            for h2 in [h1, h1 + 1 + rng.below(100), if wide { 8800 } else { 10_900 }] {
+                // `xaxb` at the front (what the greedy scan takes, 29 points), ` ab` at the very end (what the optimal algorithm
+                // finds, 62 points)
+                let mut hay: Vec<char> = "xaxb".chars().collect();
+                hay.extend(std::iter::repeat(if wide { '\u{4e2d}' } else { 'x' }).take(h2 - 7));
+                hay.extend(" ab".chars());
+                let (ht, nt) = (Text::new(hay), Text::new(vec!['a', 'b']));
+                let mut fresh = Matcher::new(cfg.real());
+                rep.count("c10.accepted-after-a-rejected-window");
+                let (mut i1, mut i2) = (Vec::new(), Vec::new());
+                let r = caught(|| {
+                    let a = call(&mut veteran, Algo::Fuzzy, ht.view(!wide), nt.view(true), Some(&mut i1));
+                    let b = call(&mut fresh, Algo::Fuzzy, ht.view(!wide), nt.view(true), Some(&mut i2));
+                    (a, b)
+                });
+                match r {
+                    Ok((a, b)) if a == b && i1 == i2 => (),
+                    Ok((a, b)) => {
+                        rep.violation(
+                            "C10",
+                            "history-dependent-result",
+                            "fuzzy_indices after a window that did not fit".into(),
+                            jobj! {"problem" => format!("window of {h2} characters (wide: {wide}), needle \"ab\": the used matcher returns {a:?} {i1:?}, a fresh matcher {b:?} {i2:?}; the call before was a window of {h1} x {n1} that does not fit the slab"),
+                                   "config" => format!("{cfg:?}"), "case_id" => format!("{}:{}:rta", opts.seed, opts.shard)},
+                        );
+                        return;
+                    }
+                    Err(e) => {
+                        rep.violation("C10", "panic", format!("panic@{}", e.rsplit(" @ ").next().unwrap_or("")), jobj! {"message" => e, "window" => h2, "wide" => wide});
+                        return;
+                    }
+                }
+            }
+        }
+    }
+}
+
 fn all_calls(m: &mut Matcher, case: &Case, hr: bool, nr: bool) -> Result<Vec<(Option<u16>, Vec<u32>)>, String> {
     let h = case.hay.view(hr);
     let n = case.needle.view(nr);
@@ -271,6 +327,7 @@ pub fn run(opts: &Opts, pools: &Pools, rep: &mut Report) {
     install_slab_monitor();
     if opts.replay.is_none() {
         frontier_sweep(opts, rep);
+        rejected_then_accepted(opts, rep);
         if opts.shard % 8 == 3 {
             giant_contiguous(rep);
         }
